@@ -205,6 +205,15 @@ def run(tier, seed, only=None):
     for c in out["cases"][:3]:
         ck.sample({k: c[k] for k in list(c)[:4]})
     correspond(ck, cases)
+    if any(b[0] == "correspondence" and "inconsistent assumptions" in b[1] for b in ck.broken):
+        # a concurrent build of another property recompiled a shared library while the cases were
+        # being evaluated: rebuild under the lock and evaluate the cases once more
+        from vlib import Lock, make
+        ck.broken = [b for b in ck.broken if not (b[0] == "correspondence" and "did not evaluate" in b[1])]
+        ck._corr_replays = []
+        with Lock():
+            make(["Props/C18.vo", "Model/C18Model.vo", "Model/RotArr.vo"])
+            correspond(ck, cases)
     for f in out["fails"]:
         ck.failure(f["sig"], f["what"], f["replay"])
     ck.cov["rule"] = ("element level: unit / non-unit quaternion pairs and vectors through the lazy formulas and both "
